@@ -266,34 +266,26 @@ def _sorted_cfg(v):
 
 def _pattern(docs):
     """Coarse shape of a document sequence, used as a feature of law violations (known-finding predicates match on it)."""
-    prio_list = False
-    del_merge = False
+    found = {'prio': False, 'seq': False, 'delmerge': False}
 
-    def has_seq(n):
-        if n['k'] == 'seq':
-            return True
-        if n['k'] == 'map':
-            return any(has_seq(it[1]) for it in n['items'])
-        return False
-
-    def walk(n, in_seq):
-        nonlocal prio_list, del_merge
+    def walk(n):
         t = n.get('tag')
-        if t in ('!force', '!weak') and (in_seq or has_seq(n)):
-            prio_list = True
+        if t in ('!force', '!weak'):
+            found['prio'] = True
         if t in ('!del', '!merge'):
-            del_merge = True
+            found['delmerge'] = True
         if n['k'] == 'map':
             for it in n['items']:
-                walk(it[1], in_seq)
+                walk(it[1])
         elif n['k'] == 'seq':
+            found['seq'] = True
             for it in n['items']:
-                walk(it, True)
+                walk(it)
     for d in docs:
-        walk(d, False)
-    if prio_list:
-        return 'priority_tag_on_or_inside_a_list'
-    if del_merge:
+        walk(d)
+    if found['prio'] and found['seq']:
+        return 'priority_tags_and_lists'
+    if found['delmerge']:
         return 'del_or_merge_tag'
     return 'plain'
 
